@@ -286,6 +286,24 @@ def State.add (s : State) (now fab peer minInt maxInt evwm : Nat) : State × Opt
     ({ s with count := s.count + 1, nextSubId := s.nextSubId + 1, ctxs := s.ctxs ++ [ctx] },
       some sub.id)
 
+/-- `u32` modulus: `next_subscription_id` is a `u32` -/
+def U32 : Nat := 4294967296
+
+/-- `SubscriptionsInner::add` with the `u32` arithmetic of `self.next_subscription_id += 1` spelled out
+(release build: wrapping; a debug build panics at the wrap). `State.add` computes in `Nat`; the two
+agree while fewer than `2^32 - 1` ids have been assigned (`Subs.add_u32_agrees`), which every
+whole-history theorem assumes (`NoSubIdWrap`, listed in `props/C13.json`). -/
+def State.addU32 (s : State) (now fab peer minInt maxInt evwm : Nat) : State × Option Nat :=
+  if s.count ≥ s.n then (s, none)
+  else
+    let wm := s.changed.watermark
+    let sub : Sub := { id := s.nextSubId, fab := fab, peer := peer, minInt := minInt, maxInt := maxInt,
+                       reportedAt := IMAX, retryAt := 0, fail := 0, seenAttr := wm, seenEv := 0 }
+    let ctx : Ctx := { sub := sub, nextAttr := wm, nextEv := evwm, nextReportedAt := now,
+                       nextRetryAt := 0, nextFail := 0 }
+    ({ s with count := s.count + 1, nextSubId := (s.nextSubId + 1) % U32, ctxs := s.ctxs ++ [ctx] },
+      some sub.id)
+
 /-- `find_reportable`: `.position(is_reportable)` -/
 def findReportable (hz : Nat) (subs : List Sub) (now : Nat) (es : List Entry) (evwm : Nat) : Option Nat :=
   subs.findIdx? (fun x => x.isReportable hz now es evwm)
@@ -483,6 +501,39 @@ def State.run (s : State) : List Op → State
 def State.shouldReportAttr (s : State) (c : Ctx) (ep cl attr : Nat) : Bool :=
   if c.sub.reportedAt = IMAX then true
   else containsSince s.changed.entries ep cl attr c.sub.seenAttr
+
+/-! ## The numbering of the event queue (`im/events.rs`): what the table sees of it
+
+The table never looks into the queue; it is handed the queue's watermark by its callers (`add`,
+`report`, `load_persist` take `event_numbers_watermark = self.state.events.watermark()`), stores it as
+the snapshot `next_max_seen_event_number` of the report context and commits it as the subscription's
+`max_seen_event_number`. The report itself selects the queued events by number:
+`EventReader::new(max_seen, next_max_seen)` + `process_read`. -/
+
+/-- `EventsInner::next_event_number` — the numbering state of the queue -/
+structure EvQ where
+  next : Nat
+deriving Repr, DecidableEq, Inhabited
+
+def EvQ.new : EvQ := { next := 1 }
+
+/-- `Events::push` → `next_event_number()`: the event gets the number `next_event_number`, which is then
+`wrapping_add(1).max(1)` -/
+def EvQ.push (q : EvQ) : Nat × EvQ := (q.next, { next := max ((q.next + 1) % U64) 1 })
+
+/-- `Events::watermark`: `next_event_number.wrapping_sub(1)` -/
+def EvQ.watermark (q : EvQ) : Nat := (q.next + IMAX) % U64
+
+/-- `EventReader::process_read`: an event of the queue is considered for the report of context `c`
+exactly when `event_number > max_seen_event_number && event_number <= next_max_seen_event_number` -/
+def Ctx.eventInRange (c : Ctx) (num : Nat) : Bool := decide (num > c.sub.seenEv) && decide (num ≤ c.nextEv)
+
+/-- the event watermark an operation is handed by its caller -/
+def Op.evParam : Op → Option Nat
+  | .add _ _ _ _ _ ev => some ev
+  | .report _ ev => some ev
+  | .restart _ ev => some ev
+  | _ => none
 
 /-- `ReportContext::should_send_if_empty` -/
 def Ctx.shouldSendIfEmpty (hz : Nat) (c : Ctx) : Bool := decide (c.sub.reportDueAt hz ≤ c.nextReportedAt)
